@@ -321,7 +321,7 @@ int main(int argc, char **argv) {
                     "(b) integers within +-2000 of 0, 2^63, 2^64, 10^19, 10^k+-1 (k<=21) in both signs; (c) " + std::to_string(npat) +
                     " mantissa patterns x 2047 binary exponents: exact decimal expansion of the double and of the midpoint to its "
                     "successor, truncated to 17,18,19,20,21,40,100,400,all digits, exponent and positional form; (d) 1.7e308..1e310 "
-                    "band; (e) every string of <=" + std::to_string(slen) + " units over {0 1 9 . e E + -}; oracle glibc strtod; "
+                    "band; (f) exponents of up to 26 digits around multiples of 2^16/2^32 and powers of ten; (e) every string of <=" + std::to_string(slen) + " units over {0 1 9 . e E + -}; oracle glibc strtod; "
                     "distinct = distinct (class, ulp distance, sign, kind) outcomes";
         plan.bounds = "sig<=" + std::to_string(sigmax) + " patterns=" + std::to_string(npat) + " strlen<=" + std::to_string(slen);
         // (a)
@@ -500,6 +500,56 @@ int main(int argc, char **argv) {
                             ctx.acc.count("states");
                             check_all(s, b, ctx, "d", false);
                             check_all("-" + s, b, ctx, "d", false);
+                        }
+                    }
+                }
+            };
+            plan.stages.push_back(st);
+        }
+        // (f) exponents with many digits: around every multiple of 2^32 and 2^16, powers of ten, leading zeros
+        {
+            vx::Stage st;
+            st.name   = "long-exponents";
+            st.chunks = 16;
+            st.hang_s = 30;
+            st.fn     = [](int64_t chunk, vx::Ctx &ctx) {
+                static Bufs b;
+                std::vector<unsigned __int128> centers;
+                for (int k = 1; k <= 4; k++) {
+                    centers.push_back(((unsigned __int128)k) << 32);
+                    centers.push_back(((unsigned __int128)k) << 16);
+                }
+                centers.push_back(((unsigned __int128)1) << 64);
+                centers.push_back(((unsigned __int128)1) << 31);
+                unsigned __int128 p10 = 100;
+                for (int k = 3; k <= 25; k++) {
+                    p10 *= 10;
+                    centers.push_back(p10);
+                }
+                int64_t n = 0;
+                for (auto c : centers) {
+                    for (int d = -330; d <= 330; d += (d > -5 && d < 5) ? 1 : 13) {
+                        if ((n++ % 16) != chunk) {
+                            continue;
+                        }
+                        unsigned __int128 v = c + d;
+                        std::string       e;
+                        while (v) {
+                            e.insert(e.begin(), char('0' + (int)(v % 10)));
+                            v /= 10;
+                        }
+                        for (const char *m : {"1", "0.5", "-12.25", "0", "0.0", "123456789012345678901"}) {
+                            for (const char *es : {"e", "E+", "e-", "e000"}) {
+                                if (!ctx.next()) {
+                                    continue;
+                                }
+                                std::string t = std::string(m) + es + e;
+                                if (ctx.want_desc()) {
+                                    ctx.describe(t);
+                                }
+                                ctx.acc.count("states");
+                                check_all(t, b, ctx, "f", (d & 1) == 0);
+                            }
                         }
                     }
                 }
